@@ -152,7 +152,7 @@ def expand(pool, key, calls, results):
         if k in ("seal", "open"):
             s = scen(gcm, "concurrent_" + k)
             gcm.append(dict(sc=s, op="gcm.aead", h="a", key=pool[key], noncesize=len(pool[call["a"]]), tagsize=16, path="asm",
-                            err="", kind="x", key_after=pool[key], ns=len(pool[call["a"]]), ov=16, panic=""))
+                            err="", kind="*sm4.sm4GcmAsm", asm_available=True, key_after=pool[key], ns=len(pool[call["a"]]), ov=16, panic=""))
             base = dict(sc=s, h="a", nonce=pool[call["a"]], aad=pool[call["c"]], prefix=[], spare=-1, alias="none",
                         repeat=False, j="v", panic=pa, out=res.get("out", []), out2=[],
                         nonce_after=pool[call["a"]], aad_after=pool[call["c"]], in_after=pool[call["b"]],
